@@ -2206,4 +2206,146 @@ theorem modexact_1c_odd_spec (src : List Nat) (d c : Nat) (hsrc : Limbs src) (hn
     exact Nat.lt_of_mul_lt_mul_right h2
 
 
+/-! ### mpn_rsh_divrem_hensel_qr_1_1 / _1_2: 2-adic division with on-the-fly right shift -/
+
+/-- the output limbs: right shift by s of the limb vector q :: qs, built as the C does
+    (`qo | (q' << (63-s) << 1)`, `qo = q' >> s`) -/
+def shrList (s : Nat) : Nat → List Nat → List Nat
+  | q, [] => [q >>> s]
+  | q, q' :: qs => henselOr (q >>> s) q' s :: shrList s q' qs
+
+theorem henselOr_eq (q q' s : Nat) (hq : q < B) (hs : s ≤ 63) :
+    henselOr (q >>> s) q' s < B ∧
+    ∀ rest, val (q :: q' :: rest) / 2 ^ s = henselOr (q >>> s) q' s + B * (val (q' :: rest) / 2 ^ s) := by
+  unfold henselOr
+  rcases Nat.eq_zero_or_pos s with h0 | hpos
+  · subst h0
+    have e1 : (((q' <<< (63 - 0)) % B) <<< 1) % B = 0 := by
+      rw [Nat.shiftLeft_eq, Nat.shiftLeft_eq]
+      have hB : B = 2 ^ 63 * 2 := rfl
+      have : q' * 2 ^ 63 % B * 2 ^ 1 = (q' * 2 ^ 63 % B) * 2 := by ring
+      rw [this, hB, Nat.mul_mod_mul_right]
+      have : q' * 2 ^ 63 % (2 ^ 63 * 2) % 2 ^ 63 = 0 := by
+        rw [Nat.mod_mul_right_mod, Nat.mul_mod_left]
+      rw [this, Nat.zero_mul]
+    rw [e1, Nat.shiftRight_zero, Nat.or_zero]
+    refine ⟨hq, fun rest => ?_⟩
+    rw [pow_zero, Nat.div_one, Nat.div_one, val_cons]
+  · have e1 : (((q' <<< (63 - s)) % B) <<< 1) % B = (q' <<< (64 - s)) % B := by
+      rw [Nat.shiftLeft_eq, Nat.shiftLeft_eq, Nat.shiftLeft_eq, pow_one, Nat.mod_mul_mod, Nat.mul_assoc, ← pow_succ]
+      congr 3; omega
+    rw [e1]
+    obtain ⟨a, b⟩ := shr_limb q q' s [] hq hpos hs
+    refine ⟨a, fun rest => ?_⟩
+    exact (shr_limb q q' s rest hq hpos hs).2
+
+theorem shrList_spec (s : Nat) (hs : s ≤ 63) (qs : List Nat) : ∀ q, q < B → Limbs qs →
+    val (shrList s q qs) = val (q :: qs) / 2 ^ s ∧ Limbs (shrList s q qs) ∧ (shrList s q qs).length = qs.length + 1 := by
+  induction qs with
+  | nil =>
+    intro q hq _
+    have hv : val [q] = q := by rw [val_cons, val_nil, Nat.mul_zero, Nat.add_zero]
+    refine ⟨?_, Limbs_cons.mpr ⟨?_, Limbs_nil⟩, rfl⟩
+    · show val [q >>> s] = _
+      rw [hv, Nat.shiftRight_eq_div_pow]
+      have : val [q / 2 ^ s] = q / 2 ^ s := by rw [val_cons, val_nil, Nat.mul_zero, Nat.add_zero]
+      rw [this]
+    · rw [Nat.shiftRight_eq_div_pow]; exact Nat.lt_of_le_of_lt (Nat.div_le_self _ _) hq
+  | cons q' qs ih =>
+    intro q hq hl
+    have ⟨hq', hqs⟩ := Limbs_cons.mp hl
+    obtain ⟨a, b⟩ := henselOr_eq q q' s hq hs
+    obtain ⟨i1, i2, i3⟩ := ih q' hq' hqs
+    refine ⟨?_, Limbs_cons.mpr ⟨a, i2⟩, by show (shrList s q' qs).length + 1 = _; rw [i3]; rfl⟩
+    show val (henselOr (q >>> s) q' s :: shrList s q' qs) = _
+    rw [val_cons, i1, b qs]
+
+theorem henselStep_q (d m x h c : Nat) : (henselStep d m x h c).1 = ((x + B - (h + c) % B) % B * m) % B := rfl
+theorem henselStep_h (d m x h c : Nat) :
+    (henselStep d m x h c).2.1 = (((x + B - (h + c) % B) % B * m) % B * d) / B := rfl
+theorem henselStep_c (d m x h c : Nat) : (henselStep d m x h c).2.2 = if (h + c) % B > x then 1 else 0 := rfl
+
+/-- one limb of the 2-adic division: x + (c' + h')·B = q·d + (h + c) -/
+theorem henselStep_spec (d m x h c : Nat) (hx : x < B) (hT : h + c < B) (hd0 : 0 < d) (_hdB : d < B)
+    (hinv : (d * m) % B = 1) :
+    (henselStep d m x h c).1 < B ∧ (henselStep d m x h c).2.1 < d ∧ (henselStep d m x h c).2.2 ≤ 1 ∧
+    x + ((henselStep d m x h c).2.2 + (henselStep d m x h c).2.1) * B = (henselStep d m x h c).1 * d + (h + c) := by
+  rw [henselStep_q, henselStep_h, henselStep_c, Nat.mod_eq_of_lt hT]
+  generalize h + c = t at *
+  have hyB : (x + B - t) % B < B := Nat.mod_lt _ B_pos
+  have hy : x + (if t > x then 1 else 0) * B = (x + B - t) % B + t := by
+    simp only [B_eq] at *; split <;> omega
+  have hb : (if t > x then 1 else 0) ≤ 1 := by split <;> omega
+  generalize (x + B - t) % B = y at *
+  have hq := hensel_limb y d m hyB hinv
+  have hqB : (y * m) % B < B := Nat.mod_lt _ B_pos
+  have hh' := (hi_lt ((y * m) % B) d hqB).resolve_right (by omega)
+  refine ⟨hqB, hh', hb, ?_⟩
+  generalize (y * m) % B = q at *
+  generalize q * d / B = h' at *
+  generalize (if t > x then 1 else 0) = b at *
+  rw [hq]
+  have : x + (b + h') * B = (x + b * B) + h' * B := by ring
+  rw [this, hy]; ring
+
+/-- the unshifted quotient limbs and the final carry of the one-limb-at-a-time loop -/
+def henselQ (d m : Nat) : List Nat → Nat → Nat → List Nat × Nat
+  | [], h, c => ([], (h + c) % B)
+  | x :: xs, h, c =>
+      ((henselStep d m x h c).1 :: (henselQ d m xs (henselStep d m x h c).2.1 (henselStep d m x h c).2.2).1,
+       (henselQ d m xs (henselStep d m x h c).2.1 (henselStep d m x h c).2.2).2)
+
+theorem henselQ_cons (d m x : Nat) (xs : List Nat) (h c : Nat) :
+    henselQ d m (x :: xs) h c =
+      ((henselStep d m x h c).1 :: (henselQ d m xs (henselStep d m x h c).2.1 (henselStep d m x h c).2.2).1,
+       (henselQ d m xs (henselStep d m x h c).2.1 (henselStep d m x h c).2.2).2) := rfl
+
+theorem hensel11Go_cons (d m s x : Nat) (xs : List Nat) (h c qo : Nat) :
+    hensel11Go d m s (x :: xs) h c qo =
+      (henselOr qo (henselStep d m x h c).1 s ::
+        (hensel11Go d m s xs (henselStep d m x h c).2.1 (henselStep d m x h c).2.2 ((henselStep d m x h c).1 >>> s)).1,
+       (hensel11Go d m s xs (henselStep d m x h c).2.1 (henselStep d m x h c).2.2 ((henselStep d m x h c).1 >>> s)).2) := rfl
+
+theorem hensel11Go_eq (d m s : Nat) (xs : List Nat) : ∀ h c qp,
+    hensel11Go d m s xs h c (qp >>> s) = (shrList s qp (henselQ d m xs h c).1, (henselQ d m xs h c).2) := by
+  induction xs with
+  | nil => intro h c qp; rfl
+  | cons x xs ih =>
+    intro h c qp
+    rw [hensel11Go_cons, henselQ_cons, ih]
+    rfl
+
+/-- invariant of the 2-adic division: xs + ret·B^len = Q·d + (h + c) -/
+theorem henselQ_spec (d m : Nat) (hd0 : 0 < d) (hdB : d < B) (hinv : (d * m) % B = 1) (xs : List Nat) :
+    ∀ h c, h + c < B → Limbs xs →
+    val xs + (henselQ d m xs h c).2 * B ^ xs.length = val (henselQ d m xs h c).1 * d + (h + c) ∧
+      Limbs (henselQ d m xs h c).1 ∧ (henselQ d m xs h c).1.length = xs.length := by
+  induction xs with
+  | nil =>
+    intro h c hT _
+    have : (henselQ d m [] h c) = ([], (h + c) % B) := rfl
+    rw [this, Nat.mod_eq_of_lt hT]
+    exact ⟨by rw [val_nil, List.length_nil, pow_zero, Nat.zero_mul, Nat.mul_one, Nat.zero_add],
+      Limbs_nil, rfl⟩
+  | cons x xs ih =>
+    intro h c hT hl
+    have ⟨hx, hxs⟩ := Limbs_cons.mp hl
+    obtain ⟨a1, a2, a3, a4⟩ := henselStep_spec d m x h c hx hT hd0 hdB hinv
+    rw [henselQ_cons]
+    generalize (henselStep d m x h c).1 = q at *
+    generalize (henselStep d m x h c).2.1 = h' at *
+    generalize (henselStep d m x h c).2.2 = c' at *
+    obtain ⟨e, hL, hlen⟩ := ih h' c' (by omega) hxs
+    refine ⟨?_, Limbs_cons.mpr ⟨a1, hL⟩, by rw [List.length_cons, hlen, List.length_cons]⟩
+    rw [val_cons, val_cons, List.length_cons, pow_succ]
+    generalize (henselQ d m xs h' c').2 = ret at *
+    generalize val (henselQ d m xs h' c').1 = Vo at *
+    generalize val xs = Vx at *
+    generalize B ^ xs.length = P at *
+    have : x + B * Vx + ret * (P * B) = x + B * (Vx + ret * P) := by ring
+    rw [this, e]
+    have : x + B * (Vo * d + (h' + c')) = (x + (c' + h') * B) + B * (Vo * d) := by ring
+    rw [this, a4]; ring
+
+
 end Mpir.DivWord
